@@ -162,8 +162,14 @@ def main():
             c["_origin"] = f"finding:{e['status']}:{i}"
             c["_finding_id"] = e["id"]
             corpus_cases.append(c)
+    # where did the code move away from the tree the model was validated on? (not a violation: more exploration)
+    import fingerprint
+
+    src_changes = fingerprint.changes(REPO)
+    anchored_changes = [c for c in src_changes if any(c.startswith(a + ":") for a in fingerprint.anchored(prop))]
+    rounds = 1 + (1 if src_changes else 0) + (1 if anchored_changes else 0)
     try:
-        cases = corpus_cases + list(mod.cases(seed, args.tier))
+        cases = corpus_cases + [c for k in range(rounds) for c in mod.cases(seed + 1000 * k, args.tier)]
     except HarnessError as e:
         print(f"INFRASTRUCTURE: {e}")
         return 2
@@ -285,6 +291,9 @@ def main():
             "distribution": dict(sorted(hist.items())),
             "known_findings_reproduced": sorted(reported_known),
             "repo": str(REPO),
+            "source_definitions_changed_since_model_validation": src_changes[:40],
+            "of_which_in_anchored_files": anchored_changes[:40],
+            "exploration_rounds": rounds,
         },
         "assumptions": list(getattr(mod, "ASSUMPTIONS", [])),
         "wall_s": round(wall, 2),
